@@ -14,10 +14,10 @@ ANCHORS = ["fm_core_features.py:get_core_features", "fm_core_features.py:FMCoreF
 plan = semops.plan
 
 
-def judge(acc, source, spec, model, idx, sem_t, sem_c, tags, cls, payload):
+def judge(acc, source, spec, model, idx, sem_t, sem_c, tags, cls, payload, op=None):
     from flamapy.metamodels.fm_metamodel.operations import FMCoreFeatures
     W = "FMCoreFeatures"
-    ok, res = guard(acc, cls, W, tags, payload, lambda: FMCoreFeatures().execute(model).get_result())
+    ok, res = guard(acc, cls, W, tags, payload, lambda: (op or FMCoreFeatures()).execute(model).get_result())
     if not ok:
         return
     key = S.digest(spec) if S.feature_names(spec)[1:] else None
@@ -59,7 +59,8 @@ def judge(acc, source, spec, model, idx, sem_t, sem_c, tags, cls, payload):
 
 
 def run_shard(desc, acc):
-    semops.run(desc, acc, judge, "C14")
+    from flamapy.metamodels.fm_metamodel.operations import FMCoreFeatures
+    semops.run(desc, acc, judge, "C14", FMCoreFeatures)
 
 
 def replay(payload, acc):
